@@ -3,6 +3,7 @@ package server
 // C17 — observation, comparison with c17Model, attribution of differences, driver.
 
 import (
+	"context"
 	"encoding/hex"
 	"fmt"
 	"regexp"
@@ -462,6 +463,36 @@ func (h *c17Hist) compare(at string) bool {
 		}
 	}
 
+	// ---- 2a. ListVrf shows exactly the configured VRFs with their RD and RT sets
+	listed := map[string]string{}
+	if err := h.n.s.ListVrf(context.Background(), &api.ListVrfRequest{}, func(v *api.Vrf) {
+		rd, _ := apiutil.UnmarshalRD(v.Rd)
+		im, _ := apiutil.UnmarshalRTs(v.ImportRt)
+		ex, _ := apiutil.UnmarshalRTs(v.ExportRt)
+		hexes := func(l []bgp.ExtendedCommunityInterface) string {
+			m := map[string]bool{}
+			for _, ec := range l {
+				if b, err := ec.Serialize(); err == nil {
+					m[hex.EncodeToString(b)] = true
+				}
+			}
+			return c17SetString(m)
+		}
+		listed[v.Name] = fmt.Sprintf("rd=%v id=%d import={%s} export={%s}", rd, v.Id, hexes(im), hexes(ex))
+	}); err != nil {
+		h.rec.Inconclusive("c17: ListVrf: " + err.Error())
+		return false
+	}
+	for _, v := range h.vrfs {
+		got, have := listed[v.name]
+		want := fmt.Sprintf("rd=%s id=%d import={%s} export={%s}", v.rdString(), v.id, c17SetString(c17RTHexSet(v.imp)), c17SetString(c17RTHexSet(v.exp)))
+		h.rec.Count("listvrf_compared", 1)
+		if have != v.present || have && got != want {
+			h.violation("c17:list-vrf:differs:after-"+h.lastKind("vrf:"+v.name), fmt.Sprintf("ListVrf shows VRF %s as %q (listed=%v), configured: %q (present=%v)", v.name, got, have, want, v.present), at, nil)
+			return false
+		}
+	}
+
 	// ---- 2. every VRF table: VPN routes with >=1 transitive RT in the import set, shown as plain routes
 	ok := true
 	for _, v := range h.vrfs {
@@ -644,6 +675,21 @@ func (h *c17Hist) comparePeer(p *c17Peer, best map[string]*c17Route, at string) 
 			return false
 		}
 	}
+	if p.role == c17RTC {
+		// gobgp originates a membership (local AS, RT) for every import RT of a configured VRF and advertises it to
+		// rtc neighbours (TestDelVrfWithRTC); not part of the property: counted as coverage only
+		for _, v := range h.vrfs {
+			for _, rt := range v.imp {
+				if v.present {
+					if _, held := snap[simRouteKey{bgp.RF_RTC_UC, bgp.NewRouteTargetMembershipNLRI(simLocalAS, rt.ec()).String(), 0}]; held {
+						h.rec.Count("rtc_local_vrf_membership_held", 1)
+					} else {
+						h.rec.Count("rtc_local_vrf_membership_not_held", 1)
+					}
+				}
+			}
+		}
+	}
 	var diffs []string
 	type cl struct {
 		key  string
@@ -687,7 +733,11 @@ func (h *c17Hist) comparePeer(p *c17Peer, best map[string]*c17Route, at string) 
 				bl = h.versionClass(tag, msgEv, best) + bl
 			}
 			diffs = append(diffs, fmt.Sprintf("STALE %s tag %d (%s) [%s]", k, tag, why, bl))
-			set(staleName+sfx(k)+":"+bl, 1)
+			if sfx(k) != "" {
+				set(staleName+sfx(k), 4)
+			} else {
+				set(staleName+":"+bl, 1)
+			}
 			continue
 		}
 		match := false
@@ -700,7 +750,11 @@ func (h *c17Hist) comparePeer(p *c17Peer, best map[string]*c17Route, at string) 
 				bl = h.versionClass(tag, msgEv, best) + bl
 			}
 			diffs = append(diffs, fmt.Sprintf("DIFFERENT %s peer holds version tag %d, should hold %v [%s]", k, tag, ws, bl))
-			set("different-version"+sfx(k)+":"+bl, 3)
+			if sfx(k) != "" {
+				set("different-version"+sfx(k), 6)
+			} else {
+				set("different-version:"+bl, 3)
+			}
 		}
 	}
 	if !wait {
@@ -719,7 +773,11 @@ func (h *c17Hist) comparePeer(p *c17Peer, best map[string]*c17Route, at string) 
 				bl = "not-in-vpn-index:" + bl
 			}
 			diffs = append(diffs, fmt.Sprintf("MISSING %s %v [%s]", k, ws, bl))
-			set(missName+sfx(k)+":"+bl, 2)
+			if sfx(k) != "" {
+				set(missName+sfx(k), 5)
+			} else {
+				set(missName+":"+bl, 2)
+			}
 		}
 	}
 	if len(diffs) == 0 {
